@@ -36,7 +36,7 @@ from bounded.oracles_fuse import (
     reshape_plan_apply,
 )
 
-from symmray.abelian_core import calc_reshape_args
+import symmray.abelian_core as _ac
 
 CONTRACTS = {
     "C07.reshape_plan": (
@@ -147,7 +147,7 @@ def _plan_failures(shape, newshape, subsizes, extra=None, out=None):
 
 def _plan_failures_(shape, newshape, subsizes, out):
     try:
-        plan = calc_reshape_args(tuple(shape), tuple(newshape), tuple(subsizes))
+        plan = _ac.calc_reshape_args(tuple(shape), tuple(newshape), tuple(subsizes))
     except Exception as e:  # noqa: BLE001
         return [
             (
